@@ -566,6 +566,8 @@ def get_attr(E, obj, attr, fr, node):
             if attr in cd.fields:
                 raise PyRaise("AttributeError", line)
             raise Unsupported("attribute %s of %s not declared" % (attr, cd.key))
+        if c[0] == "slice" and attr != "indices":
+            raise PyRaise("AttributeError", line)
         return Bound(obj, attr)
     if isinstance(obj, tuple) and obj and obj[0] == "module":
         m = E.repo.module(obj[1])
@@ -614,6 +616,17 @@ def get_attr(E, obj, attr, fr, node):
         return Bound(obj, attr)
     if isinstance(obj, (SV, int, bytes, str, bytearray, tuple)) or obj is None:
         if obj is None:
+            raise PyRaise("AttributeError", line)
+        known = ()
+        if is_intlike(obj):
+            known = ("bit_length", "to_bytes", "__index__", "from_bytes")
+        elif is_byteslike(obj):
+            known = ("hex", "decode", "join", "__len__", "fromhex")
+        elif isinstance(obj, str) or (isinstance(obj, SV) and obj.ty == TStr):
+            known = ("lower", "format", "join", "startswith", "endswith", "upper", "strip", "split", "encode")
+        elif isinstance(obj, SV) and isinstance(obj.ty, (TList, TDict)):
+            return Bound(obj, attr)
+        if attr not in known:
             raise PyRaise("AttributeError", line)
         return Bound(obj, attr)
     if isinstance(obj, (Opaque,)):
@@ -893,8 +906,17 @@ def call_function(E, key, args, kwargs, fr, node):
         raise Unsupported("call of %s in a specification" % key)
     fnode, mod, clsnode = E.repo.find(key)
     decos = [d.id if isinstance(d, ast.Name) else getattr(d, "attr", "") for d in fnode.decorator_list]
-    if key in CONTRACTS and key not in INLINE and not (E.inline_stack and E.inline_stack[-1] == key):
-        return call_contract(E, CONTRACTS[key], key, fnode, mod, clsnode, args, kwargs, fr, node)
+    variants = [k for k in CONTRACTS if k == key or k.startswith(key + "#")]
+    if variants and key not in INLINE and not (E.inline_stack and E.inline_stack[-1] == key):
+        if len(variants) == 1:
+            return call_contract(E, CONTRACTS[variants[0]], variants[0], fnode, mod, clsnode, args, kwargs, fr, node)
+        env = bind_params(E, fnode, args, kwargs, mod, clsnode, key)
+        for vk in variants:
+            c = CONTRACTS[vk]
+            if all(matches(E, env.get(p), ty) for p, ty in c.params.items()):
+                return call_contract(E, c, vk, fnode, mod, clsnode, args, kwargs, fr, node)
+        raise Unsupported("no contract variant of %s matches the argument types %r (line %d)" % (
+            key, [env.get(p) for p in CONTRACTS[variants[0]].params], getattr(node, "lineno", 0)))
     if key in INLINE or key.endswith(".__init__") and key.rsplit(".", 1)[0] in AUTO_INIT:
         return call_inline(E, key, fnode, mod, clsnode, args, kwargs, fr, node)
     raise Unsupported("call of %s: no contract and not inlined (line %d)" % (key, getattr(node, "lineno", 0)))
@@ -979,6 +1001,34 @@ def call_contract(E, c, key, fnode, mod, clsnode, args, kwargs, fr, node):
         return result
     finally:
         E.old_stack.pop()
+
+
+def matches(E, v, ty):
+    if ty == TAny:
+        return True
+    if ty == TInt:
+        return is_intlike(v)
+    if ty == TBool:
+        return isinstance(v, bool) or (isinstance(v, SV) and v.ty == TBool)
+    if ty == TBytes:
+        return is_byteslike(v)
+    if ty == TStr:
+        return isinstance(v, str) or (isinstance(v, SV) and v.ty == TStr)
+    if ty == TSlice:
+        return isinstance(v, Ref) and E.cell(v)[0] == "slice"
+    if ty == TNone:
+        return v is None
+    if isinstance(ty, TObj):
+        return isinstance(v, Ref) and E.cell(v)[0] == "obj" and (
+            ty.cls in class_mro(E, E.cell(v)[1].key))
+    if isinstance(ty, TList):
+        return (isinstance(v, Ref) and E.cell(v)[0] in ("seq", "pylist", "iter")) or (
+            isinstance(v, SV) and isinstance(v.ty, TList)) or isinstance(v, (tuple, list))
+    if isinstance(ty, TDict):
+        return isinstance(v, Ref) and E.cell(v)[0] in ("dict", "pydict")
+    if isinstance(ty, TTuple):
+        return isinstance(v, tuple) and len(v) == len(ty.elems)
+    return False
 
 
 def coerce(E, v, ty, key, p):
